@@ -24,6 +24,9 @@ def indexL (xs : List Int) (i : Int) : Except PyErr Int :=
     | some x => .ok x
     | none => .error .indexError
 
+/-- Python `b * n` on bytes (a non-positive count gives the empty string) -/
+def bytesRepeat (b : Bytes) (n : Int) : Bytes := (List.replicate n.toNat b).flatten
+
 /-- Python `~x` -/
 def lnot (x : Int) : Int := -x - 1
 
